@@ -24,9 +24,35 @@
 
 """
 
-from Crypto.Hash import SHA256
 from Crypto.PublicKey import RSA
 from Crypto.Signature import pkcs1_15
+
+
+class _PrehashedSha1(object):  # pylint: disable=too-few-public-methods
+    """A stand-in hash object: ADB tokens are signed as if they were already a SHA-1 digest.
+
+    Parameters
+    ----------
+    data : bytes
+        The (20-byte) token, which is treated as a SHA-1 digest
+
+    """
+    oid = '1.3.14.3.2.26'
+    digest_size = 20
+
+    def __init__(self, data):
+        self._data = bytes(data)
+
+    def digest(self):
+        """Return the pre-hashed data unchanged.
+
+        Returns
+        -------
+        bytes
+            The data that was passed to the constructor
+
+        """
+        return self._data
 
 
 class PycryptodomeAuthSigner(object):
@@ -69,8 +95,7 @@ class PycryptodomeAuthSigner(object):
             The signed ``data``
 
         """
-        h = SHA256.new(data)
-        return pkcs1_15.new(self.rsa_key).sign(h)
+        return pkcs1_15.new(self.rsa_key).sign(_PrehashedSha1(data))
 
     def GetPublicKey(self):
         """Returns the public key in PEM format without headers or newlines.
